@@ -47,6 +47,13 @@ impl<K: Eq + std::hash::Hash> PendingIntents<K> {
     }
 }
 
+#[cfg(feature = "verif")]
+impl<K: Clone> PendingIntents<K> {
+    pub(crate) fn verif_entries(&self) -> Vec<(K, BlobHash)> {
+        self.by_key.iter().map(|(k, h)| (k.clone(), *h)).collect()
+    }
+}
+
 impl<K> PendingIntents<K> {
     /// Number of keys that have a pending intent.
     #[allow(dead_code)] // inspected by the unit tests
